@@ -257,7 +257,8 @@ func init() {
 					fail("a manifest naming a package directory with a separator, '.', '..' or '' was opened")
 				}
 				for _, p := range b.RemotePackages() {
-					for _, sub := range []string{"", "m", "m/n"} {
+					// dotted segments that are not ".." are ordinary names (seed C18-e)
+					for _, sub := range []string{"", "m", "m/n", "v1..v2", "...", "..data/x", "a/trailing.."} {
 						lp, err := b.LocalPathForRemoteSource(p.SourceAddr(sub))
 						qs = append(qs, "lr~"+X(p.String())+"~"+X(sub))
 						if err != nil {
